@@ -389,7 +389,7 @@ def run(tier: str) -> int:
             add("spans", "Spans", gen_cfg("cfg/Spans.tmpl", dict(MaxSegs=3, MaxRich=1, Level=2, Family="spans", Dev="none", Extra=emit), "s1"), workers=6, timeout=3000)
             add("spans-pairs", "Spans", gen_cfg("cfg/Spans.tmpl", dict(MaxSegs=2, MaxRich=2, Level=1, Family="spans", Dev="none", Extra=emit), "s2"), workers=6, timeout=3000)
             add("spans-simulate", "Spans", gen_cfg("cfg/Spans.tmpl", dict(MaxSegs=5, MaxRich=3, Level=1, Family="spans", Dev="none", Extra=emit), "s3"),
-                workers=4, timeout=3000, simulate="num=600", depth=6, seed=seed() + 20)
+                workers=4, timeout=3000, simulate="num=60", depth=6, seed=seed() + 20)
             add("errors", "Spans", gen_cfg("cfg/Spans.tmpl", dict(MaxSegs=2, MaxRich=1, Level=2, Family="errors", Dev="none", Extra=emit), "e1"), workers=4, timeout=3000)
             add("errors-3", "Spans", gen_cfg("cfg/Spans.tmpl", dict(MaxSegs=3, MaxRich=1, Level=1, Family="errors", Dev="none", Extra=emit), "e2"), workers=4, timeout=3000)
             devs = DEVS
